@@ -55,9 +55,9 @@ def tstate(gs, ps, r):
     return s
 
 
-def c13_torch(run, Nmax=2, count=12):
+def c13_torch(run, Nmax=2, count=12, circuits=30):
     rng = np.random.default_rng(run.seed)
-    b = B('every shared function on all strings / phases for N = 1..%d (pairs exhaustive), %d random tableaux and maps per N, all ranks, all masks' % (Nmax, count))
+    b = B('every shared function on all strings / phases for N = 1..%d (pairs exhaustive), %d random tableaux and maps per N, all ranks, all masks; %d mirrored circuit programs (N = 2..4, 3-6 generator gates on 1-2 qubits)' % (Nmax, count, circuits))
 
     def cmp(ident, fpy, ftorch, inp, conv=None):
         b.case(sample={'function': ident, 'input': inp})
@@ -201,6 +201,48 @@ def c13_torch(run, Nmax=2, count=12):
         cmp('circuit_compile_copy_backward', run_py, run_t, {'N': N})
         cmp('diagonalize', lambda: (lambda o: [o.g, o.p])(pci.diagonalize(P(S[-1], 0)).forward(P(S[-1].copy(), 0))),
             lambda: (lambda o: [o.g, o.p % 4])(tci.diagonalize(tP(S[-1], 0)).forward(tP(S[-1], 0))), {'N': N})
+    # mirrored circuit programs: the same generator gates taken by both packages; forward / backward of the circuit, of a copy,
+    # of a copy that then takes one more gate, and of the composition of two halves (uncompiled: torch compile is a known finding)
+    for pi in range(circuits):
+        N = int(rng.integers(2, 5))
+        L = int(rng.integers(3, 7))
+        prog = []
+        for _ in range(L + 1):
+            nq = int(rng.integers(1, 3))
+            q = tuple(sorted(rng.choice(N, size=nq, replace=False).tolist()))
+            g = gens.bits(rng, 2 * nq)
+            while not g.any():
+                g = gens.bits(rng, 2 * nq)
+            prog.append((q, g, int(2 * rng.integers(0, 2))))
+        extra = prog.pop()
+        gsr = gens.bits(rng, 6, 2 * N)
+        psr = rng.integers(0, 4, 6)
+        inp = {'N': N, 'program': [[list(q), lst(g), p_] for q, g, p_ in prog], 'extra': [list(extra[0]), lst(extra[1]), extra[2]]}
+
+        def pgate(q, g, p_):
+            gate = pci.CliffordGate(*q); gate.set_generator(P(g, p_)); return gate
+
+        def tgate(q, g, p_):
+            gate = tci.CliffordGate(*q); gate.set_generator(tP(g, p_)); return gate
+
+        def scenario(mk_circ, mk_gate, mk_list, post):
+            def build(gs_):
+                c = mk_circ()
+                for (q, g, p_) in gs_:
+                    c.take(mk_gate(q, g, p_))
+                return c
+            out = []
+            circ = build(prog)
+            cp = circ.copy()
+            cpx = circ.copy(); cpx.take(mk_gate(*extra))
+            comp = build(prog[:L // 2]).compose(build(prog[L // 2:]))
+            for c in (circ, cp, cpx, comp):
+                l = mk_list(); c.forward(l); out += post(l)
+                l = mk_list(); c.backward(l); out += post(l)
+            return out
+        cmp('circuit_program(copy, extended copy, compose; forward and backward)',
+            lambda: scenario(lambda: pci.CliffordCircuit(N), pgate, lambda: PL(gsr.copy(), psr.copy()), lambda l: [l.gs.copy(), l.ps % 4]),
+            lambda: scenario(lambda: tci.identity_circuit(N), tgate, lambda: tPL(gsr, psr), lambda l: [n(l.gs).copy(), n(l.ps) % 4]), inp)
     # random_clifford must be able to entangle
     b.case()
     ent = False
